@@ -106,6 +106,7 @@ EXPORT errno_t _strcmpfld_s_chk(const char *dest, rsize_t dmax, const char *src,
         dmax--;
     }
 
-    *resultp = *dest - *src;
+    if (dmax) /* else all dmax characters are equal: dest[dmax] is not part of the field */
+        *resultp = *dest - *src;
     return (EOK);
 }
